@@ -158,8 +158,10 @@ class NativeCase:
                 v = rng.choice([-1, 0, 1, 2, 3, 4, 5, 8, rng.randint(0, 12)])
             elif pk == 'bool':
                 v = rng.choice([True, False])
-            elif pk == 'none':
+            elif pk in ('none', 'optstream'):
                 v = None
+                if pk == 'optstream' and 'redirected' in self.st.ghost:
+                    env[self.name_of(self.st.ghost['redirected'])] = False
             elif pk == 'str':
                 v = 'x'
             elif pk == 'xorpad':
